@@ -330,7 +330,50 @@ def shard_generated(acc, shard, nshards, n_perm, n_tuple, n_inf):
     engine.hyp_run(acc, "perm", check_perm, gen.perms(7, 13).map(list), n_perm, shard)
     engine.hyp_run(acc, "tuple", check_tuple, tuple_cases(), n_tuple, shard)
     engine.hyp_run(acc, "inflate", check_inflate, inflate_cases(), n_inf, shard)
+    engine.hyp_run(acc, "huge", check_huge, st.integers(1200, 2200).flatmap(lambda n: st.fixed_dictionaries({"p": gen.perm_of(n).map(list), "q": gen.perm_of(n).map(list)})), 2 if n_inf < 2000 else 8, shard)
 
+
+def check_huge(case):
+    """Basic algebra on permutations of a couple of thousand points under the interpreter's
+    default recursion budget: every operation returns a bijection of the documented length and
+    obeys its law whatever the length."""
+    from ..lib import with_default_recursion_budget
+
+    p, q = tuple(case["p"]), tuple(case["q"])
+    n = len(p)
+
+    def body():
+        P, Q = Perm(p), Perm(q)
+        inv = P.inverse()
+        if tuple(inv) != ref.inverse(p) or tuple(P.compose(inv)) != tuple(range(n)):
+            return "inverse"
+        if tuple(P.compose(Q)) != tuple(p[v] for v in q) or P.multiply(Q) != P.compose(Q):
+            return "compose"
+        if tuple(P.direct_sum(Q)) != p + tuple(v + n for v in q) or tuple(P.skew_sum(Q)) != tuple(v + n for v in p) + q:
+            return "sums"
+        if tuple(P.shift_right(7)) != p[-7:] + p[:-7] or tuple(P.shift_up(5)) != tuple((v + 5) % n for v in p):
+            return "shifts"
+        ins = P.insert(3, 4)
+        if len(ins) != n + 1 or ins.remove(3) != P or tuple(P.remove(0)) != ref.delete_point(p, 0):
+            return "insert_remove"
+        if P.is_increasing() != (p == tuple(range(n))) or not Perm.identity(n).is_increasing() or tuple(Perm.monotone_decreasing(n)) != tuple(range(n - 1, -1, -1)):
+            return "monotone"
+        parts = Perm.identity(n).sum_decomposition()
+        if len(parts) != n:
+            return "sum_decomposition_identity"
+        if len(list(P.descents())) + len(list(P.ascents())) != n - 1:
+            return "descents_ascents"
+        return None
+
+    status, bad = with_default_recursion_budget(body)
+    if status == "recursion":
+        return BAD("huge_recursion_error", {"length": n})
+    if bad:
+        return BAD("huge_" + bad, {"length": n})
+    return OK(True, "huge", key=str(hash(p + q)))
+
+
+CHECKS["huge"] = check_huge
 
 # coverage-guided variants of the structured generators (thorough tier, pv/fuzz/target.py hyp:<name>)
 FUZZ = {"tuple": ("tuple", tuple_cases), "inflate": ("inflate", inflate_cases)}
